@@ -69,12 +69,15 @@ def run(cx):
         if oka:
             s, d = somes[0]
             e = match('(agg * (0 (agg tuple (0 $prj) (1 $id) (2 $loc))))', d)
-            oka = e is not None
+            oka = e is not None and q is not None
             if oka:
+                e = dict(e)
+                e['q'] = q          # the offset is measured from the SAME (once transformed) query that was projected
+
                 ok2, off = cx.all_paths(b, s.bb, lambda has: has(f'(lt {ANG} (param max_angle))', True, e) or has(f'(lt (sub PI (param max_angle)) {ANG})', True, e))
                 oka = ok2
         cx.ob('GUARD', 'Mesh::project_with_tol:accept', oka,
-              'a result is accepted only under angle < max_angle or angle > PI - max_angle, the angle being |normal(face id).angle(query - projection)| of the SAME projection', where=b.file)
+              'a result is accepted only under angle < max_angle or angle > PI - max_angle, the angle being |normal(face id).angle(query - projection)| with the SAME query that was projected and the SAME projection', where=b.file)
         # rejection only outside: every None is under no-projection, no-normal, or both angle tests false
         okn = True
         for s, d in nones:
